@@ -215,8 +215,8 @@ func (em *emitter) emitNodes(nodes []ast.Node) {
 
 		case *ast.Raw:
 			if text := node.Text; text != nil {
-				txt := text.Text[node.Text.Cut.Left : len(text.Text)-text.Cut.Right]
-				if len(txt) != 0 {
+				if text.Cut.Left+text.Cut.Right < len(text.Text) {
+					txt := text.Text[text.Cut.Left : len(text.Text)-text.Cut.Right]
 					em.fb.emitText(txt, em.inURL, em.isURLSet)
 				}
 			}
@@ -325,8 +325,10 @@ func (em *emitter) emitNodes(nodes []ast.Node) {
 			em.breakLabel = currentBreakLabel
 
 		case *ast.Text:
-			txt := node.Text[node.Cut.Left : len(node.Text)-node.Cut.Right]
-			if len(txt) != 0 {
+			// The left and right cuts of a text made only of spaces can
+			// overlap: nothing remains of the text.
+			if node.Cut.Left+node.Cut.Right < len(node.Text) {
+				txt := node.Text[node.Cut.Left : len(node.Text)-node.Cut.Right]
 				em.fb.emitText(txt, em.inURL, em.isURLSet)
 			}
 
